@@ -4,4 +4,5 @@ INVARIANT Inv
 CONSTANTS
  Encs = {2, 3}
  Layouts = {1, 2}
+ IdxBases = {0, 32510}
 CHECK_DEADLOCK FALSE
